@@ -60,6 +60,30 @@ def py_step(p, start, ln, a, b, c):
     return None
 
 
+def grow_probe(total=200):
+    """Long operation sequences of the same functional spec: a triangle on capacity 3, then `grow` up to `total` slots with an extension
+    through each new label; after every step the successor map on the labels in use must equal the specification's."""
+    from ..runner import replay_requests
+    reqs, exp = [], []
+    ops = [["init", 0, 1, 2]]
+    p, start, ln = [1, 2, 0], 0, 3
+    for k in range(3, total):
+        ops = ops + [["grow"]]
+        p = p + [k]
+        if k % 7 == 3:
+            # attach the new label k between start's predecessor z and start y: triangle (k, y, z) with edge z -> y on the cycle
+            y = start; z = [x for x in range(len(p)) if p[x] == y and p[x] != x][0]
+            st = py_step(p, start, ln, k, y, z)
+            ops = ops + [["ext", k, y, z]]
+            if st is not None: p, start, ln = st
+        reqs.append({"op": "cycle", "capacity": 3, "ops": list(ops)}); exp.append((list(p), start, ln))
+    for rq, e, a in zip(reqs, exp, replay_requests(reqs, timeout=300)):
+        if "ptrs" not in a or a["ptrs"][:len(e[0])] != e[0] or a["len"] != e[2]:
+            return len(reqs), {"request": {"op": "cycle", "capacity": 3, "ops": "init(0,1,2) then %d grow / extend steps" % (len(rq["ops"]) - 1), "last_ops": rq["ops"][-3:]},
+                               "real": {k: (v[:len(e[0])] if k == "ptrs" else v) for k, v in a.items() if k != "log"}, "spec": e}
+    return len(reqs), None
+
+
 def bounded_search(n=6, max_states=400, seed=0):
     """Reachable states of the real SimpleCycle on n labels (BFS over op sequences), every triple tried from each:
     real try_extend/init vs the functional specification. Returns (cases, first mismatch or None)."""
@@ -88,6 +112,7 @@ def bounded_search(n=6, max_states=400, seed=0):
         for rq, e, a in zip(reqs, exp, ans):
             cases += 1
             if "ptrs" not in a: return cases, {"request": rq, "real": a, "spec": e}
+            a = dict(a, ptrs=a["ptrs"][:n])      # the abstract state: successor map on the n labels in use (spare capacity is representation)
             last = rq["ops"][-1]
             if last[0] == "ext":
                 ok_real = a["log"][-1]
@@ -118,13 +143,16 @@ def run(tier, seed):
             if x.status == "discharged": x.status = "vacuity-ok"
     # bounded replay search: used as the counterexample finder for refuted E1 obligations, and reported as a bounded stand-in
     cases, bad = bounded_search(6, 60 if tier == "quick" else 2000, seed)
+    if bad is None:
+        c2, bad = grow_probe(200 if tier == "quick" else 600)
+        cases += c2
     if any(x.status == "refuted" for x in results):
         for x in results:
             if x.status == "refuted":
                 x.counterexample = bad
                 x.replay = {"reproduced": bad is not None, "search": "all triples from %d reachable states on 6 labels" % cases, "mismatch": bad}
     results.append(Result("C18.bounded.real_try_extend_and_init_match_functional_spec", "R", "discharged" if bad is None else "refuted", 0.0, "replay",
-                          "" if bad is None else repr(bad), UNIT, bounded="6 labels, %d (state, triple) cases, BFS over reachable states" % cases,
+                          "" if bad is None else repr(bad), UNIT, bounded="6 labels, BFS over reachable states, plus grow/extend sequences up to 200 labels: %d (state, operation) cases" % cases,
                           counterexample=bad, replay={"reproduced": bad is not None, "mismatch": bad}))
     meta = {
         "level": "proof",
